@@ -402,6 +402,63 @@ MustChange(op, st) == IF op.k = "U" /\ UuidToken(op.a) \in {"random", "time"} /\
 FsckMayRestore(op) == AsSet(op.off) \cap {"large_file"}
 
 (* ---------------------------------------------------------------------------------------------------------------- *)
+(* Quota accounting.  The quota file of type t records, for every id that owns a charged inode, the bytes and the number  *)
+(* of inodes charged to it (lib/support/mkquota.c quota_compute_usage(); the rule e2fsck and the kernel apply).             *)
+(* Per in-use inode the independent reader supplies f = <<ino, uid, gid, project id, i_blocks in bytes, EA-inode flag,     *)
+(* system flag>>; system = reserved inode other than the root directory, or the project quota inode / orphan file when     *)
+(* they live above the reserved range.  The blocks of an EA inode are charged through the inodes that refer to it.         *)
+QidOf(f, t) == CASE t = "usr" -> f[2] [] t = "grp" -> f[3] [] t = "prj" -> f[4]
+Charged(f) == f[7] = 0
+SpaceOf(f) == IF f[6] = 1 THEN 0 ELSE f[5]
+RECURSIVE SumSpace(_, _)
+SumSpace(fs, ks) == IF ks = {} THEN 0 ELSE LET k == CHOOSE x \in ks : TRUE IN SpaceOf(fs[k]) + SumSpace(fs, ks \ {k})
+RealUsage(fs, t) ==
+   LET idx == {k \in 1..Len(fs) : Charged(fs[k])}
+       ids == {QidOf(fs[k], t) : k \in idx}
+   IN {LET mine == {k \in idx : QidOf(fs[k], t) = id} IN <<id, SumSpace(fs, mine), Cardinality(mine)>> : id \in ids}
+(* q = [t, entries (the <<id, bytes, inodes>> records a lookup by id finds in the quota tree), err (structural defects)]  *)
+QuotaFileOK(q, fs) == q.err = <<>> /\ AsSet(q.entries) = RealUsage(fs, q.t)
+
+(* ---------------------------------------------------------------------------------------------------------------- *)
+(* Boundary catalogue of the STARTING IMAGES.  The rewrite obligation above quantifies over object classes; whether the    *)
+(* real rewrite reaches every object of a class depends on where the object sits (an extent block below another extent     *)
+(* block, an index node that has no room left for the checksum tail, a quota entry that opens a new data block).  Every    *)
+(* starting image of the conformance universe must therefore contain each class at each depth / fill boundary named here;  *)
+(* gen/c11_rich.py builds that content from these constants and TLC decides (UniverseOK) that it is really there.          *)
+QtBlock == 1024   QtHeader == 16   QtEntry == 72                  \* quota tree: 1 KiB blocks, v2r1 entries
+QuotaPerBlock == (QtBlock - QtHeader) \div QtEntry                 \* 14 entries fill a data block
+OwnerCount == QuotaPerBlock + 6                                    \* the next data block is opened and partly filled
+OwnerBase(t) == CASE t = "usr" -> 5000 [] t = "grp" -> 6000 [] t = "prj" -> 7000
+FarIds == <<65534, 16777223, 2147483646>>                          \* other branches of the radix tree at depth 2, 0, 0
+OwnerIdSeq(t) == [i \in 1..OwnerCount |-> OwnerBase(t) + i - 1] \o FarIds
+ExtPerNode(bs) == (bs - 12) \div 12
+DeepExtents(bs) == 4 * ExtPerNode(bs) + 14                         \* more than the inode's 4 index entries x full leaves: depth 2
+DirExtents == 8                                                    \* more than the inode's 4 extents: depth 1
+DxNameLen == 200
+DxRecLen(len) == 8 + 4 * ((len + 3) \div 4)
+DxRootLimit(bs, csum) == (bs - 32 - (IF csum = 1 THEN 8 ELSE 0)) \div 8
+DxLeafCap(bs, csum, len) == (bs - (IF csum = 1 THEN 12 ELSE 0)) \div DxRecLen(len)
+MaxDirEntries == 600                                               \* bound on the size of a catalogue directory
+FullRootEntries(bs, csum) ==                                       \* e2fsck -D packs the leaves: this many names fill the dx root exactly
+   LET n == DxRootLimit(bs, csum) * DxLeafCap(bs, csum, DxNameLen) IN IF n <= MaxDirEntries THEN n ELSE 0
+TwoLevelFeasible(bs, csum) == (DxRootLimit(bs, csum) + 1) * DxLeafCap(bs, csum, 255) <= MaxDirEntries
+CatBlockSizes == {1024, 2048, 4096}
+CatalogueRows == {[bs |-> b, csum |-> c, deep |-> DeepExtents(b), fragdir |-> DirExtents, fullroot |-> FullRootEntries(b, c),
+                   leafcap |-> DxLeafCap(b, c, DxNameLen), leafcap255 |-> DxLeafCap(b, c, 255), namelen |-> DxNameLen] : b \in CatBlockSizes, c \in {0, 1}}
+CatalogueOwners == [usr |-> OwnerIdSeq("usr"), grp |-> OwnerIdSeq("grp"), prj |-> OwnerIdSeq("prj")]
+(* c = census of an image by the independent reader *)
+UniverseOK(st, c) ==
+   LET crc == IF "metadata_csum" \in st.feats THEN 1 ELSE 0
+   IN /\ c.stale = <<>>                                                          \* starts with every checksum right
+      /\ c.nusr > QuotaPerBlock /\ c.ngrp > QuotaPerBlock                        \* quota trees span several data blocks
+      /\ (st.isz > 128 => c.nprj > QuotaPerBlock)
+      /\ ("extent" \in st.feats => c.file_depth >= 2 /\ c.dir_depth >= 1)        \* interior extent blocks; directory extent blocks
+      /\ ("dir_index" \in st.feats => c.dx_root_notfull >= 1)
+      /\ ("dir_index" \in st.feats /\ FullRootEntries(st.bs, crc) > 0 => c.dx_root_full >= 1)
+      /\ ("dir_index" \in st.feats /\ TwoLevelFeasible(st.bs, crc) => c.dx_interior_full >= 1)
+      /\ c.xattr_blocks >= 1
+
+(* ---------------------------------------------------------------------------------------------------------------- *)
 (* The request catalogue: the universe the conformance check enumerates (checks/c11.py reads it through Emit_Tune)     *)
 F(on, off) == [k |-> "O", on |-> on, off |-> off, a |-> "", n |-> 0]
 K(k, a, n) == [k |-> k, on |-> <<>>, off |-> <<>>, a |-> a, n |-> n]
